@@ -70,8 +70,17 @@ Section WithComparer.
     | _ => true
     end.
 
+  Definition kindsb (l : list entry) : bool := forallb (fun e => e_kind e <=? keyTypeSeek p) l.
+
   Definition table_okb (t : table) : bool :=
-    negb (match t_entries t with [] => true | _ => false end) && sortedb (t_entries t).
+    negb (match t_entries t with [] => true | _ => false end) && sortedb (t_entries t) && kindsb (t_entries t).
+
+  (* no two entries share user key and sequence number *)
+  Fixpoint uniqb (l : list entry) : bool :=
+    match l with
+    | [] => true
+    | a :: l' => forallb (fun b => negb (beq (e_uk a) (e_uk b) && (e_seq a =? e_seq b))) l' && uniqb l'
+    end.
 
   Fixpoint nums_desc (ts : list table) : bool :=
     match ts with
@@ -106,7 +115,35 @@ Section WithComparer.
     forallb table_okb (concat lvls) &&
     match lvls with
     | [] => true
-    | l0 :: rest => nums_desc l0 && forallb level_disjoint rest
+    | l0 :: rest => nums_desc l0 && uniqb (level_entries l0) && forallb level_disjoint rest
     end &&
     levels_newer lvls.
+
+  (* ---- certificate of an observed table compaction: the pre-compaction version is well-formed, and
+     every table of the source level and of the next level that shares a user key with an input table is
+     itself an input (closure) ---- *)
+  Definition is_input (nums : list N) (t : table) : bool := existsb (N.eqb (t_num t)) nums.
+
+  Definition shares_key (es : list entry) (t : table) : bool :=
+    existsb (fun x => existsb (fun e => match cmp c (e_uk x) (e_uk e) with Eq => true | _ => false end) es) (t_entries t).
+
+  (* every other stored entry with the user key of an input entry is newer than it, or older and then the
+     key is not at base level (the hypothesis of ReorgProofs.compaction_preserves, as a boolean) *)
+  Definition othersb (base : bytes -> bool) (I O : list entry) : bool :=
+    forallb (fun o => forallb (fun i =>
+      match cmp c (e_uk o) (e_uk i) with
+      | Eq => (e_seq i <? e_seq o) || ((e_seq o <? e_seq i) && negb (base (e_uk i)))
+      | _ => true
+      end) I) O.
+
+  (* the certificate evaluated on every observed table compaction: I = entries of the input tables,
+     O = every other stored entry, deeper = the levels below the output level, outs = the output tables *)
+  Definition compaction_cert (minSeq : N) (deeper : list (list table)) (I O : list entry)
+             (outs : list (list entry)) : bool :=
+    kindsb I && uniqb (I ++ O) && othersb (is_base deeper) I O && (minSeq <? keyMaxSeq p).
+
+  Definition closure_okb (nums : list N) (lv0 lv1 : list table) : bool :=
+    let ins := filter (is_input nums) (lv0 ++ lv1) in
+    let es := level_entries ins in
+    forallb (fun t => is_input nums t || negb (shares_key es t)) (lv0 ++ lv1).
 End WithComparer.
